@@ -24,10 +24,13 @@ theorem framing_roundtrip (fs : List Frame) (h : ∀ f ∈ fs, f.clean) :
     readFrames maxTok (writeFrames fs) = (fs, true) :=
   readFrames_writeFrames fs h
 
-/-- Full statement: the framing round-trips IF AND ONLY IF every component is clean. Only (⇐) is proved in general
-(`framing_roundtrip`); (⇒) is shown on witnesses below (each way of being unclean breaks the round trip). -/
-def framing_roundtrip_iff_stmt : Prop :=
-  ∀ fs : List Frame, readFrames maxTok (writeFrames fs) = (fs, true) ↔ ∀ f ∈ fs, f.clean
+/-- **framing_roundtrip (⇔)**: a stream recording reads back as exactly the frames that were written, without error,
+IF AND ONLY IF every component (database, retention policy, line) is clean: no line feed, no carriage return at its
+end, shorter than the Scanner's 64 KiB token limit. (⇒ by counting lines: every line feed inside a component adds a
+line, so the reader cannot come back with the same number of frames.) -/
+theorem framing_roundtrip_iff (fs : List Frame) :
+    readFrames maxTok (writeFrames fs) = (fs, true) ↔ ∀ f ∈ fs, f.clean :=
+  ⟨readFrames_writeFrames_inv fs, readFrames_writeFrames fs⟩
 
 /-- Counterexample (finding `stream-newline-framing`): a line feed inside the line (a string field `s="a\nb"`)
 splits the record: the reader sees 4 lines, i.e. one frame with a truncated line and an incomplete second frame. -/
